@@ -62,6 +62,7 @@ def run(check):
     check.guarded("PROGRAM-KIND", X.rule_program_kind)
     check.guarded("TRAILER-COMMENT", rule_trailer_comment)
     check.guarded("TS-FLAGS", X.rule_ts_flags)
+    check.guarded("NODE-REBUILD", X.rule_node_rebuild)
     return {
         "explanation": "Grammar-position rules on what the rewriter constructs: parenthesised sequences, parenthesised hoisted comma expressions, untouched program kind, and the trailer being a line comment on its own line.",
         "assumptions": ["swc's code generator prints a syntactically valid program for a well-formed tree and does not run the fixer pass (tree printed as given)"],
